@@ -934,7 +934,14 @@ class AttrParser(BaseParser):
                 self.raise_error("Hex string in denseAttr is invalid")
 
             # Handle splat values given in hex
-            if len(bytes_values) == type.element_type.compile_time_size:
+            try:
+                element_size = type.element_type.compile_time_size
+            except NotImplementedError:
+                self.raise_error(
+                    f"Hex strings in dense literals of element type "
+                    f"{type.element_type} are not supported"
+                )
+            if len(bytes_values) == element_size:
                 bytes_values *= type_num_values
 
             # Create attribute
